@@ -70,6 +70,9 @@ WORKLOADS = [
     ("parse_file", ["PF 0 " + hx("main.conf")], 20),
     ("parse_stream", ["PS 0 " + hx(b"i = 4\n")], 6),
     ("parse_error", ["PB 0 " + hx(b"m \"t\" { x = oops\n")], 40),
+    # the same section creations in a context that has a search path (sections borrow it)
+    ("addtsec_new_searchpath", ["AT 0 %s %s" % (hx("m"), hx("t1"))], 40, ["SP 0 %s" % hx("/tmp")]),
+    ("parse_sections_searchpath", ["PB 0 " + hx(b"m a { x = 1 } one { w = r } m a { }\n")], 60, ["SP 0 %s" % hx("/tmp")]),
     ("print", ["PR 0"], 3),
     ("init", ["X 1 %d" % COMMENTS], 120),
 ]
@@ -79,13 +82,15 @@ def generate(rng, tier):
     cases = []
     root = gen.fsroot()
     n = 0
-    for name, ops, maxk in WORKLOADS:
+    for wl in WORKLOADS:
+        name, ops, maxk = wl[0], wl[1], wl[2]
+        extra_prep = wl[3] if len(wl) > 3 else []
         ks = list(range(maxk)) if tier == "thorough" or maxk <= 30 else sorted(set(list(range(12)) + rng.sample(range(12, maxk), 18)))
         for k in [None] + ks:
             cdir = "%s/w%d" % (root, n)
             lines = schema_lines(SCHEMA) + pw_lines() + ["CWD " + hx(cdir), "FILE %s reg %s" % (hx("inc.conf"), hx(b"l = { 5 }\n")),
                                             "FILE %s reg %s" % (hx("main.conf"), hx(b"i = 8\ninclude(\"inc.conf\")\n")),
-                                            "X 0 %d" % COMMENTS] + PREP + ["D 0", "LIVE"]
+                                            "X 0 %d" % COMMENTS] + PREP + extra_prep + ["D 0", "LIVE"]
             if k is not None:
                 lines.append("FAULT %d" % k)
             lines += ops
